@@ -98,7 +98,8 @@ claim('C07',
       'history is replayed into CellByGeneMatrix; paired real runs (column permutation, extra/removed '
       'non-marker genes: bitwise; raw vs declared log2CPM, positive scaling at factor 1: discrete equal, '
       'floats 1e-8) are decided by Relations_Trace; negative raw input must be rejected per encoding.',
-      'Trusted: TLC, numpy log2 for the harness-computed log2CPM. Near-ties not asserted.',
+      'Trusted: TLC, numpy log2 for the harness-computed log2CPM. Near-ties not asserted. Known finding F27 (raw '
+      'non-integer values: last-bit differences under column permutation) is reported as KNOWN-FINDING.',
       'TLA+ model replayed into the class + metamorphic pairs decided by TLA+ relation operators',
       'DESIGN.md section 4 C07')
 
@@ -119,7 +120,8 @@ claim('C14',
       'orphans: FailNeverReturns, RaisedHasNoResults, and under fairness FaultLeadsToRaise; all 27 plans x '
       'P in {2,3} are injected into real mapping runs through the gates and the outcome / files left are '
       'checked directly and as WorkerPool_Trace behaviours with the fault plan bound from the trace header.',
-      'Trusted: TLC, gates inject the failure inside the real worker process.',
+      'Trusted: TLC, gates inject the failure inside the real worker process. Known finding F32 (a complete file '
+      'of an earlier run survives a failing statistics / reference-marker run) is reported as KNOWN-FINDING.',
       'TLC safety + liveness on the dispatcher model; exhaustive fault injection on real code; trace validation',
       'DESIGN.md section 4 C14')
 claim('C19',
@@ -128,8 +130,8 @@ claim('C19',
       'entries and finds the timestamp-name collision; real stages run under strace -f and every file event '
       'of their process tree is validated by ScratchFS_Trace for clean, stale, concurrent, after-failure and '
       'failing histories; result digests must not depend on the history.',
-      'Trusted: TLC, strace, path classification in harness/fstrace.py. Known findings F3, F7, F11 are '
-      'reported as KNOWN-FINDING.',
+      'Trusted: TLC, strace, path classification in harness/fstrace.py. Known finding F6 (two validations '
+      'naming their output within the same second) is reported as KNOWN-FINDING.',
       'TLA+ file-system ownership model + syscall trace validation', 'DESIGN.md section 4 C19')
 
 
@@ -286,7 +288,7 @@ def build():
         'notes': 'All checks run the package from /repo (editable install) with the guard on. '
                  'Exit 0 = held (KNOWN-FINDING lines possible), 1 = VIOLATION, 2 = machinery failure. '
                  'Defects repaired in /repo by unguarded "fix:" commits (known_findings.json, status fixed): 9175c8d 1f3fda5 '
-                 '24b925f da590ef edf8ea0 282bdbf 7f5c6d3 1e89907 90143a2 00ad5c2 8731fdb 264d93e e476827 720780d 601be0f 36562b8 d7225b6 e42d32f. The specification also covers '
+                 '24b925f da590ef edf8ea0 282bdbf 7f5c6d3 1e89907 90143a2 00ad5c2 8731fdb 264d93e e476827 720780d 601be0f 36562b8 d7225b6 e42d32f cc12f34 76c75c8 946eb1f 6d65e27. The specification also covers '
                  'behaviour outside the 20 statements: extension suites ./check X01 .. X14 (DESIGN.md A.7; evidence in '
                  'evidence_ext/, DISAGREEMENT lines, not registered as claims).',
     }
